@@ -4,6 +4,7 @@ import (
 	"context"
 	"errors"
 	"sync/atomic"
+	"time"
 
 	"berty.tech/go-orbit-db/address"
 	"berty.tech/go-orbit-db/cache"
@@ -19,6 +20,25 @@ type faultCache struct {
 	armKey  atomic.Value // string
 	armed   int32
 	Injects int32
+	// SlowPut, if set, is asked how long the Put of a key takes (a datastore may take arbitrarily long)
+	SlowPut func(key string) time.Duration
+	// AfterPut, if set, observes every successful Put
+	AfterPut func(key string, val []byte)
+	// closeErrs is the number of datastore Close calls that still fail (after closing the real datastore)
+	closeErrs   int32
+	CloseFailed int32
+}
+
+// FailNextClose makes the next n datastore Close calls report an error (the real datastore is closed all the same).
+func (c *faultCache) FailNextClose(n int) { atomic.StoreInt32(&c.closeErrs, int32(n)) }
+
+func (d *faultDS) Close() error {
+	err := d.Datastore.Close()
+	if atomic.AddInt32(&d.c.closeErrs, -1) >= 0 {
+		atomic.AddInt32(&d.c.CloseFailed, 1)
+		return errors.New("sim: injected datastore close failure")
+	}
+	return err
 }
 
 func newFaultCache() *faultCache { return &faultCache{real: cacheleveldown.New(nil)} }
@@ -38,7 +58,16 @@ func (d *faultDS) Put(ctx context.Context, k ds.Key, v []byte) error {
 		atomic.AddInt32(&d.c.Injects, 1)
 		return errors.New("sim: injected datastore failure")
 	}
-	return d.Datastore.Put(ctx, k, v)
+	if f := d.c.SlowPut; f != nil {
+		if dl := f(k.String()); dl > 0 {
+			time.Sleep(dl)
+		}
+	}
+	err := d.Datastore.Put(ctx, k, v)
+	if f := d.c.AfterPut; f != nil && err == nil {
+		f(k.String(), v)
+	}
+	return err
 }
 
 func (d *faultDS) Query(ctx context.Context, q query.Query) (query.Results, error) {
